@@ -378,7 +378,7 @@ def defects(rng, rows, model):
     if c_index:
         # every check follows the fields: no field may be declared once a check has been
         late = ["F", "late_field", "", "", "3" if kind == "fixed" else "", "Text", ""]
-        yield "field-after-check", rows + [late], None, None
+        yield "field-after-check", rows + [late], len(rows) + 1, None
     if len(f_index) >= 2:
         k = f_index[1]
         yield "check-between-fields", rows[:k] + [["C", "between", "IsUnique", names[0]]] + rows[k:], None, None
